@@ -373,3 +373,28 @@ func NAF(k *big.Int, w uint) [256]int8 {
 	}
 	return naf
 }
+
+// FromX returns a curve point with the given x coordinate if one exists: y^2 = (1+x^2)/(1-d x^2).
+// odd selects the odd root.
+func FromX(x *big.Int, odd bool) (Pt, bool) {
+	x = Fe(x)
+	x2 := FSqr(x)
+	q := FMul(FAdd(one, x2), FInv(FSub(one, FMul(D, x2))))
+	if !IsSquare(q) {
+		return Pt{}, false
+	}
+	y := EvenSqrt(q)
+	if odd {
+		y = FNeg(y)
+	}
+	return Pt{x, y}, true
+}
+
+// FromY returns a curve point with the given y coordinate if one exists.
+func FromY(y *big.Int, neg bool) (Pt, bool) {
+	s := uint(0)
+	if neg {
+		s = 1
+	}
+	return decodeY(Fe(y), s)
+}
